@@ -25,9 +25,6 @@ Definition law_list (c : lcase) : list Z :=
   let '(vk, mn, mx, init, h) := c in law_list_hist (dom_of vk) (acc_of vk) mn mx 0 init h.
 
 (* ---------- sets ---------- *)
-Definition svk (k : vkind) : Z -> option Z := vld_of k.
-(* observation: outcome, contents, number of notifications, value returned by pop *)
-Definition sobs := (S.outcome * list Z * nat * option Z)%type.
 Definition scase := (vkind * list Z * list (sop * sobs))%type.
 
 Definition s_exn_eqb (a b : S.exn) : bool :=
@@ -43,27 +40,21 @@ Definition s_out_eqb (a b : S.outcome) : bool :=
 Definition with_hint (so : sop) (ret : option Z) : sop :=
   match so with SOp (S.Pop _) => SOp (S.Pop ret) | _ => so end.
 
-Definition sobs_full (ob : sobs) : S.obs :=
-  let '(out, after, nev, ret) := ob in
-  S.mkObs out after (repeat ([], []) nev) ret None.
-
 Fixpoint corr_set_hist (vld : Z -> option Z) (i : Z) (s : list Z) (h : list (sop * sobs)) : list Z :=
   match h with
   | [] => []
   | (o, ob) :: r =>
       let '(out, after, nev, ret) := ob in
-      let m := set_step vld s (with_hint o ret) in
-      lifted i (chk 1 (s_out_eqb (S.o_out m) out) ++ chk 2 (seteq (S.o_after m) after)
-                ++ chk 3 (Nat.eqb (List.length (S.o_events m)) nev) ++ chk 4 (opt_eqb Z.eqb (S.o_ret m) ret))
+      let '(mout, mafter, mnev, mret) := set_step vld s (with_hint o ret) in
+      lifted i (chk 1 (s_out_eqb mout out) ++ chk 2 (seteq mafter after)
+                ++ chk 3 (Nat.eqb mnev nev) ++ chk 4 (opt_eqb Z.eqb mret ret))
       ++ corr_set_hist vld (i + 1) after r
   end.
 Definition corr_set (c : scase) : list Z := let '(vk, init, h) := c in corr_set_hist (vld_of vk) 0 init h.
 Definition law_set (c : scase) : list Z :=
-  let '(vk, init, h) := c in
-  law_set_hist (dom_of vk) (acc_of vk) 0 init (map (fun p => (fst p, sobs_full (snd p))) h).
+  let '(vk, init, h) := c in law_set_hist (dom_of vk) (acc_of vk) 0 init h.
 
 (* ---------- dicts ---------- *)
-Definition dobs := (D.outcome * amap * nat)%type.
 Definition dcase := (vkind * vkind * amap * list (dop * dobs))%type.
 
 Definition d_exn_eqb (a b : D.exn) : bool :=
@@ -75,26 +66,20 @@ Definition d_exn_eqb (a b : D.exn) : bool :=
 Definition d_out_eqb (a b : D.outcome) : bool :=
   match a, b with D.Ok, D.Ok => true | D.Raise x, D.Raise y => d_exn_eqb x y | _, _ => false end.
 
-Definition dobs_full (ob : dobs) : D.obs :=
-  let '(out, after, nev) := ob in
-  D.mkObs out after (repeat ([], [], []) nev) D.RNone [] [] None.
-
 Fixpoint corr_dict_hist (kv vv : Z -> option Z) (i : Z) (s : amap) (h : list (dop * dobs)) : list Z :=
   match h with
   | [] => []
   | (o, ob) :: r =>
       let '(out, after, nev) := ob in
-      let m := dict_step kv vv D.Plain s o in
-      lifted i (chk 1 (d_out_eqb (D.o_out m) out) ++ chk 2 (mapeq (D.o_after m) after)
-                ++ chk 3 (Nat.eqb (List.length (D.o_events m)) nev))
+      let '(mout, mafter, mnev) := dict_step kv vv s o in
+      lifted i (chk 1 (d_out_eqb mout out) ++ chk 2 (mapeq mafter after) ++ chk 3 (Nat.eqb mnev nev))
       ++ corr_dict_hist kv vv (i + 1) after r
   end.
 Definition corr_dict (c : dcase) : list Z :=
   let '(kk, vk, init, h) := c in corr_dict_hist (vld_of kk) (vld_of vk) 0 init h.
 Definition law_dict (c : dcase) : list Z :=
   let '(kk, vk, init, h) := c in
-  law_dict_hist (dom_of kk) (acc_of kk) (dom_of vk) (acc_of vk) 0 init
-                (map (fun p => (fst p, dobs_full (snd p))) h).
+  law_dict_hist (dom_of kk) (acc_of kk) (dom_of vk) (acc_of vk) 0 init h.
 
 (* ---------- List(List(T)) ---------- *)
 Definition ncase := (vkind * (Z * option Z) * (Z * option Z) * list (list Z) * list (nop * nobs))%type.
@@ -116,7 +101,9 @@ Definition law_nested (c : ncase) : list Z :=
   law_nested_hist (dom_of vk) (acc_of vk) imn omn imx omx 0 init h.
 
 (* ---------- Dict(K, List(T)): law only ---------- *)
+(* keys are Str: the atoms 100..199 *)
+Definition kdom_str (x : Z) : bool := (100 <=? x) && (x <? 200).
 Definition ndcase := (vkind * vkind * (Z * option Z) * ndict * list ndobs)%type.
 Definition corr_ndict (c : ndcase) : list Z := [].
 Definition law_ndict (c : ndcase) : list Z :=
-  let '(kk, vk, (imn, imx), init, h) := c in law_ndict_hist (dom_of kk) (dom_of vk) imn imx 0 init h.
+  let '(kk, vk, (imn, imx), init, h) := c in law_ndict_hist kdom_str (dom_of vk) imn imx 0 init h.
